@@ -6,6 +6,7 @@ import (
 	"net/http"
 	"net/url"
 	"strings"
+	"unicode/utf8"
 )
 
 // routeBase is a http.HandlerFunc that dispatches top level routes for
@@ -50,6 +51,14 @@ func (g *GoFakeS3) routeBase(w http.ResponseWriter, r *http.Request) {
 	}
 	if _, perr := url.ParseQuery(r.URL.RawQuery); perr != nil {
 		g.httpError(w, r, ErrorMessage(ErrInvalidURI, "Couldn't parse the query string."))
+		return
+	}
+
+	if !utf8.ValidString(object) {
+		// The name of a key is a sequence of Unicode characters, sent as
+		// UTF-8. Bytes that are not UTF-8 cannot be shown in any listing (the
+		// XML encoder substitutes U+FFFD, which is another key):
+		g.httpError(w, r, ErrorMessage(ErrInvalidURI, "The key is not valid UTF-8."))
 		return
 	}
 
